@@ -1,4 +1,9 @@
 import PEval.Lemmas.MatchingResults
+import PEval.Lemmas.MatchingHeap
+import PEval.Lemmas.MatchingTotal
+import PEval.Lemmas.MatchingDispatchErr
+import PEval.Lemmas.MatchingFamily
+import PEval.Lemmas.MatchingDispatchId
 import PEval.Model.MatchDispatch
 import PEval.Properties.KernelMatchable
 import PEval.Properties.KernelBetter
@@ -313,6 +318,395 @@ example : getObjectResultsX true exTlCfg (exTl false) = .ok [(1, some 0), (0, no
 example : getObjectResultsX false exTlCfg (exTl true) = .ok [(0, some 0)] := by decide +kernel
 example : getObjectResultsX true exTlCfg (exTl true) = .ok [(1, some 0)] := by decide +kernel
 
+/-- the ROI-less traffic-light scene takes the traffic-light path; with a `None` uuid it raises -/
+example : dispatch true ⟨"traffic_light", true, "cam_traffic_light_near", some "b", true⟩
+    ⟨"traffic_light", true, "cam_traffic_light_near", some "a", true⟩ = .tlr := by decide
+example : getObjectResultsX false exTlCfg
+    { exTl true with gts := [⟨"traffic_light", true, "cam_traffic_light_near", none, true⟩] } =
+    .error "RuntimeError" := by decide +kernel
+
 end dispatch
+
+/-! ## when does the matcher return, when does it raise  (audit C01 findings 4 and 5, C02 finding 3, cross-cutting X2)
+
+Every statement above is conditional on `getObjectResults c sc = .ok rs`.  The companions: the call returns for every
+well-formed configuration; it raises exactly when both lists are non-empty and some SAME-frame cell raises while the
+table is filled, and the exception is the one of the first such cell in row-major order; a cell raises exactly
+`"IndexError"` (`matchable_thresholds[index]` in `get_label_threshold`: the ground truth's label is the `k`-th target label
+and the threshold list has at most `k` entries) or `"AssertionError"` (`assert 0.0 <= threshold_value <= 1.0` in
+`IOU2dMatching / IOU3dMatching.is_better_than`), in this order. -/
+section totality
+
+/-- **Totality.** With a threshold for every target label and, in the IoU modes, thresholds in `[0, 1]` (or without
+thresholds / target labels at all) the matcher returns, for all lists and all scores. -/
+theorem total_of_wellformed {c : Cfg} (hwf : WFCfg c) (sc : Scene) : ∃ rs, getObjectResults c sc = .ok rs :=
+  getObjectResults_total hwf sc
+
+theorem wellformed_of_no_thresholds {c : Cfg} (h : c.thresholds = none ∨ c.targets = none) : WFCfg c :=
+  wfCfg_of_no_thresholds h
+
+/-- The call raises exactly when both lists are non-empty and the table construction raises (its exception). -/
+theorem raises_iff {c : Cfg} {sc : Scene} {err : Err} :
+    getObjectResults c sc = .error err ↔ sc.ests ≠ [] ∧ sc.gts ≠ [] ∧ tableError c sc = some err :=
+  getObjectResults_error_iff
+
+/-- … and returns exactly when a list is empty or every cell of the table is defined. -/
+theorem returns_iff {c : Cfg} {sc : Scene} :
+    (∃ rs, getObjectResults c sc = .ok rs) ↔
+      sc.ests = [] ∨ sc.gts = [] ∨
+        ∀ i j, i < sc.ests.length → j < sc.gts.length → ∃ x, cellAt c sc i j = .ok x := by
+  rw [getObjectResults_ok_iff, tableError_eq_none_iff]
+
+/-- The exception is that of the FIRST failing cell in row-major order (`for i … for j …`). -/
+theorem raises_first_failing_cell {c : Cfg} {sc : Scene} {err : Err} :
+    tableError c sc = some err ↔
+      ∃ i j, i < sc.ests.length ∧ j < sc.gts.length ∧ cellAt c sc i j = .error err ∧
+        ∀ i' j', i' < sc.ests.length → j' < sc.gts.length → (i' < i ∨ (i' = i ∧ j' < j)) →
+          ∃ x, cellAt c sc i' j' = .ok x :=
+  tableError_eq_some_iff
+
+/-- One cell raises iff the two objects are in the same frame and the threshold lookup for the GROUND TRUTH's label
+fails, or it succeeds with a threshold on which the IoU range assertion fails. -/
+theorem cell_raises_iff {c : Cfg} {e g : Obj} {v : Rat} {err : Err} :
+    cell c e g v = .error err ↔
+      e.frame = g.frame ∧
+        ((err = "IndexError" ∧ ∃ T H k, c.targets = some T ∧ c.thresholds = some H ∧
+            T.findIdx? (· == g.label) = some k ∧ H.length ≤ k) ∨
+          ∃ r, labelThreshold c.targets c.thresholds g.label = .ok (some r) ∧
+            err = "AssertionError" ∧ c.mode.maximize = true ∧ ¬ (0 ≤ r ∧ r ≤ 1)) := by
+  rw [cell_error_iff, labelThreshold_error_iff]
+  constructor
+  · rintro ⟨hf, h | ⟨r, hl, hb⟩⟩
+    · exact ⟨hf, Or.inl h⟩
+    · exact ⟨hf, Or.inr ⟨r, hl, isBetterThan_error_iff.1 hb⟩⟩
+  · rintro ⟨hf, h | ⟨r, hl, hb⟩⟩
+    · exact ⟨hf, Or.inl h⟩
+    · exact ⟨hf, Or.inr ⟨r, hl, isBetterThan_error_iff.2 hb⟩⟩
+
+/-- No other exception kind leaves the geometric matcher. -/
+theorem error_kinds {c : Cfg} {sc : Scene} {err : Err} (h : getObjectResults c sc = .error err) :
+    err = "IndexError" ∨ err = "AssertionError" := by
+  obtain ⟨_, _, ht⟩ := getObjectResults_error_iff.1 h
+  obtain ⟨i, j, _, _, hc, _⟩ := tableError_eq_some_iff.1 ht
+  exact cellAt_error_kind hc
+
+/-- When the call returns, `mkTbl` IS the table the code built: no cell of it is a totalised error (finding 5: the
+`none / false` that `mkTbl` puts for an erroring cell never occurs in a successful call). -/
+theorem table_is_code_table_of_ok {c : Cfg} {sc : Scene} {rs : List Res} (h : getObjectResults c sc = .ok rs)
+    (he : sc.ests ≠ []) (hg : sc.gts ≠ []) {i j : Nat} (hi : i < sc.ests.length) (hj : j < sc.gts.length) :
+    cellAt c sc i j = .ok ⟨(mkTbl c sc).score i j, (mkTbl c sc).valid i j⟩ := by
+  have ht : tableError c sc = none := by
+    rcases getObjectResults_ok_iff.1 ⟨rs, h⟩ with h' | h' | h'
+    · exact absurd h' he
+    · exact absurd h' hg
+    · exact h'
+  obtain ⟨x, hx⟩ := tableError_none ht hi hj
+  simp [mkTbl, hx]
+
+/-- totality for every kind of object that carries geometry, every label family and uuid setting -/
+theorem x_total_of_wellformed {uf : Bool} {c : Cfg} (hwf : WFCfg c) {sx : MatchDispatch.SceneX}
+    (hgeo : MatchDispatch.hasGeometry sx) : ∃ rs, MatchDispatch.getObjectResultsX uf c sx = .ok rs := by
+  rw [withGeometry_eq_geometric uf c sx hgeo]
+  exact getObjectResults_total hwf _
+
+/-- `exCfg` is well-formed (two target labels, two radii, a distance mode) … -/
+example : WFCfg exCfg := by
+  intro T H hT hH
+  cases hT; cases hH
+  exact ⟨by decide, fun h => absurd h (by decide)⟩
+
+/-- … its two broken variants above are not (the examples after `exScene` show the two exceptions) -/
+example : ¬ WFCfg { exCfg with thresholds := some [3] } := fun h => absurd (h _ _ rfl rfl).1 (by decide)
+example : ¬ WFCfg { exCfg with mode := .iou2d } := fun h =>
+  absurd ((h _ _ rfl rfl).2 rfl 3 (by decide)).2 (by decide)
+
+/-- the traffic-light path of the entry point (ROI-less 2-D objects with traffic-light labels): returns when every uuid
+is set … (the matcher itself is C11's subject: `C11.tlr_total`) -/
+theorem x_tlr_total {uf : Bool} {c : Cfg} {sx : MatchDispatch.SceneX} {e0 g0 : MatchDispatch.ObjX}
+    {es gs : List MatchDispatch.ObjX} (hE : sx.ests = e0 :: es) (hG : sx.gts = g0 :: gs)
+    (hd : MatchDispatch.dispatch sx.is2d e0 g0 = .tlr) (hn : ∀ o ∈ sx.ests ++ sx.gts, o.uuid ≠ none) :
+    ∃ rs, MatchDispatch.getObjectResultsX uf c sx = .ok rs :=
+  MatchDispatch.getObjectResultsX_tlr_total hE hG hd hn
+
+/-- … and raises (`RuntimeError("uuid of estimation and ground truth must be set …")`) when one is `None` -/
+theorem x_tlr_null_uuid_raises {uf : Bool} {c : Cfg} {sx : MatchDispatch.SceneX} {e0 g0 : MatchDispatch.ObjX}
+    {es gs : List MatchDispatch.ObjX} (hE : sx.ests = e0 :: es) (hG : sx.gts = g0 :: gs)
+    (hd : MatchDispatch.dispatch sx.is2d e0 g0 = .tlr) (hnull : ∃ o ∈ sx.ests ++ sx.gts, o.uuid = none) :
+    ∃ x, MatchDispatch.getObjectResultsX uf c sx = .error x :=
+  MatchDispatch.getObjectResultsX_tlr_null_uuid_error hE hG hd hnull
+
+end totality
+
+/-! ## lists the dispatch does not look at: objects without the geometry the mode reads  (audit C01 finding 2)
+
+The dispatch reads only the FIRST estimate and the FIRST ground truth.  `MatchDispatch.getObjectResultsXE` adds what the
+code does for the rest of the lists: on the geometric path the constructor of the matching method raises for a
+same-frame pair that lacks what the mode reads (a later 2-D object without ROI: `AttributeError` for CENTERDISTANCE,
+`RuntimeError` for IOU2D; any 2-D object with PLANEDISTANCE / IOU3D: `AttributeError`), after the threshold lookup and
+before the IoU range assertion.  Where every same-frame pair is readable — in particular for `hasGeometry` scenes with a
+2-D mode, and for all 3-D scenes — it IS `getObjectResultsX`, so all statements above hold for it; elsewhere it raises the
+exception of the first failing cell.  (Observed on the code by `/tmp/x/WL8_scratch/probe1.py`; the harness does not
+generate such lists, see ASSUMPTIONS of `harness/props/c01.py`.) -/
+section dispatchErrors
+open PEval.MatchDispatch
+
+/-- where every same-frame pair is readable by the mode, the entry point with the constructor exits is the one above -/
+theorem xe_eq_x_of_readable {uf : Bool} {c : Cfg} {sx : SceneX} (h : modeReadable c sx) :
+    getObjectResultsXE uf c sx = getObjectResultsX uf c sx :=
+  getObjectResultsXE_eq_X h
+
+/-- 3-D boxes with any mode, and 2-D objects that all carry a ROI with a 2-D mode, are readable -/
+theorem xe_readable_of_geometry {c : Cfg} {sx : SceneX} (hgeo : hasGeometry sx)
+    (hmode : sx.is2d = true → c.mode = .centerDistance ∨ c.mode = .iou2d) : modeReadable c sx :=
+  modeReadable_of_geometry hgeo hmode
+
+/-- which exception the constructor of the matching method raises, exactly -/
+theorem xe_constructor_raises_iff {is2d : Bool} {m : Mode} {e g : ObjX} {err : Err} :
+    valueError is2d m e g = some err ↔
+      is2d = true ∧
+        ((err = "AttributeError" ∧ (m = .planeDistance ∨ m = .iou3d)) ∨
+          (err = "AttributeError" ∧ m = .centerDistance ∧ (e.roiNone = true ∨ g.roiNone = true)) ∨
+          (err = "RuntimeError" ∧ m = .iou2d ∧ (e.roiNone = true ∨ g.roiNone = true))) :=
+  valueError_eq_some_iff
+
+/-- one cell raises iff same frame and, in this order: threshold lookup, constructor, IoU range assertion -/
+theorem xe_cell_raises_iff {c : Cfg} {is2d : Bool} {e g : ObjX} {v : Rat} {err : Err} :
+    cellXE c is2d e g v = .error err ↔
+      e.frame = g.frame ∧
+        (labelThreshold c.targets c.thresholds g.label = .error err ∨
+          ((∃ thr, labelThreshold c.targets c.thresholds g.label = .ok thr) ∧
+            valueError is2d c.mode e g = some err) ∨
+          (valueError is2d c.mode e g = none ∧
+            ∃ r, labelThreshold c.targets c.thresholds g.label = .ok (some r) ∧
+              isBetterThan c.mode v r = .error err)) :=
+  cellXE_error_iff
+
+/-- on the geometric path the call raises exactly the exception of the first failing cell in row-major order -/
+theorem xe_geometric_raises_iff {uf : Bool} {c : Cfg} {sx : SceneX} {e0 g0 : ObjX} {es gs : List ObjX}
+    (hE : sx.ests = e0 :: es) (hG : sx.gts = g0 :: gs) (hd : dispatch sx.is2d e0 g0 = .geometric) {err : Err} :
+    getObjectResultsXE uf c sx = .error err ↔
+      ∃ i j, i < sx.ests.length ∧ j < sx.gts.length ∧ cellAtXE c sx i j = .error err ∧
+        ∀ i' j', i' < sx.ests.length → j' < sx.gts.length → (i' < i ∨ (i' = i ∧ j' < j)) →
+          ∃ x, cellAtXE c sx i' j' = .ok x := by
+  rw [getObjectResultsXE_geometric_error_iff hE hG hd, tableErrorXE_eq_some_iff]
+
+/-! the probe scenes: two 2-D estimates (the second without ROI, in camera `cam2`) and one ground truth with ROI -/
+
+def exMixed (cam2 : String) : SceneX :=
+  { is2d := true,
+    ests := [⟨"car", false, "cam_front", some "a", false⟩, ⟨"car", false, cam2, some "b", true⟩],
+    gts := [⟨"car", false, "cam_front", some "a", false⟩],
+    val := fun _ _ => 0 }
+
+def exMixedCfg (m : Mode) : Cfg :=
+  { policy := .default, mode := m, targets := none, thresholds := none, fpValidation := false }
+
+example : getObjectResultsXE false (exMixedCfg .centerDistance) (exMixed "cam_front") = .error "AttributeError" := by
+  decide +kernel
+example : getObjectResultsXE false (exMixedCfg .iou2d) (exMixed "cam_front") = .error "RuntimeError" := by
+  decide +kernel
+example : getObjectResultsXE false (exMixedCfg .iou3d) (exMixed "cam_front") = .error "AttributeError" := by
+  decide +kernel
+example : getObjectResultsXE false (exMixedCfg .planeDistance) (exMixed "cam_back") = .error "AttributeError" := by
+  decide +kernel
+/-- the ROI-less object is in another camera: its pair is never built, the call returns -/
+example : getObjectResultsXE false (exMixedCfg .centerDistance) (exMixed "cam_back") =
+    .ok [(0, some 0), (1, none)] := by decide +kernel
+/-- the threshold lookup comes first -/
+example : getObjectResultsXE false
+    { exMixedCfg .iou3d with targets := some ["car"], thresholds := some [] } (exMixed "cam_front") =
+    .error "IndexError" := by decide +kernel
+/-- `modeReadable` is needed: without it the plain dispatch model returns where the code raises -/
+example : getObjectResultsX false (exMixedCfg .centerDistance) (exMixed "cam_front") = .ok [(0, some 0), (1, none)] ∧
+    ¬ modeReadable (exMixedCfg .centerDistance) (exMixed "cam_front") := by
+  refine ⟨by decide +kernel, fun h => ?_⟩
+  have := h ⟨"car", false, "cam_front", some "b", true⟩ (by decide) ⟨"car", false, "cam_front", some "a", false⟩
+    (by decide) rfl
+  exact absurd this (by decide)
+
+/-- non-vacuity: the ROI-carrying traffic-light scene is readable (and its configuration well-formed), so the extended
+entry point equals the plain one and returns -/
+example : modeReadable exTlCfg (exTl false) :=
+  xe_readable_of_geometry (Or.inr ⟨by decide, by decide⟩) (fun _ => Or.inl rfl)
+
+example : WFCfg exTlCfg := by
+  intro T H hT hH
+  cases hT; cases hH
+  exact ⟨by decide, fun h => absurd h (by decide)⟩
+
+/-- non-vacuity of `xe_geometric_raises_iff`: the failing cell of the mixed scene is (1, 0) -/
+example : cellAtXE (exMixedCfg .iou2d) (exMixed "cam_front") 1 0 = .error "RuntimeError" ∧
+    dispatch (exMixed "cam_front").is2d ⟨"car", false, "cam_front", some "a", false⟩
+      ⟨"car", false, "cam_front", some "a", false⟩ = .geometric := by decide +kernel
+
+end dispatchErrors
+
+/-! ## labels are enum MEMBERS: the one-family assumption made explicit  (audit C01 finding 8)
+
+`Matching.Obj.label` is the member VALUE.  `MatchDispatch.isMatchableF / labelThresholdF / cellF` carry the label family
+and follow `Label.__eq__` (member equality), `is_fp / is_unknown` (`CommonLabel`: both families), `label in target_labels`.
+Under the assumption of the model header (one family per call) they coincide with the value-level functions all
+theorems are about; for mixed families they differ (examples; checked on the code by `/tmp/x/WL8_scratch/probe2.py`). -/
+section family
+open PEval.MatchDispatch
+
+theorem family_isMatchable_eq {p : Policy} {e g : ObjX} (h : e.tl = g.tl) :
+    isMatchableF p e g = isMatchable p (toObj e) (toObj g) :=
+  isMatchableF_of_same_family h
+
+/-- with estimate, ground truth and target labels in one family the member-level cell is the cell of the model -/
+theorem family_cell_eq {c : Cfg} {tsF : Option (List (Bool × String))} {e g : ObjX} {v : Rat}
+    (hts : c.targets = tsF.map (fun l => l.map (·.2))) (hfam : e.tl = g.tl)
+    (htf : ∀ l, tsF = some l → ∀ t ∈ l, t.1 = g.tl) :
+    cellF c.policy c.mode tsF c.thresholds e g v = cell c (toObj e) (toObj g) v :=
+  cellF_of_same_family hts hfam htf
+
+/-- mixed families: `AutowareLabel.UNKNOWN` and `TrafficLightLabel.UNKNOWN` are different members (DEFAULT policy: not
+compatible) although their values are equal (the value-level rule says compatible); FP and the ALLOW_UNKNOWN escape go
+through `CommonLabel` and ignore the family -/
+example : isMatchableF .default ⟨"unknown", false, "cam_front", none, false⟩ ⟨"unknown", true, "cam_front", none, false⟩ = false ∧
+    isMatchable .default ⟨"unknown", "cam_front"⟩ ⟨"unknown", "cam_front"⟩ = true ∧
+    isMatchableF .default ⟨"car", false, "cam_front", none, false⟩ ⟨"false_positive", true, "cam_front", none, false⟩ = true ∧
+    isMatchableF .allowUnknown ⟨"unknown", true, "cam_front", none, false⟩ ⟨"car", false, "cam_front", none, false⟩ = true := by
+  decide
+
+/-- `label in target_labels` is member equality too -/
+example : labelThresholdF (some [(false, "unknown")]) (some [1]) ⟨"unknown", true, "cam_front", none, false⟩ = .ok none ∧
+    labelThresholdF (some [(true, "unknown"), (false, "unknown")]) (some [1, 2])
+      ⟨"unknown", false, "cam_front", none, false⟩ = .ok (some 2) := by decide +kernel
+
+/-- non-vacuity of `family_cell_eq`: a traffic-light estimate / ground truth and traffic-light target labels -/
+example : cellF exTlCfg.policy exTlCfg.mode (some [(true, "traffic_light")]) exTlCfg.thresholds
+    ⟨"traffic_light", true, "cam_traffic_light_near", some "a", false⟩
+    ⟨"traffic_light", true, "cam_traffic_light_near", some "a", false⟩ 2 =
+    cell exTlCfg ⟨"traffic_light", "cam_traffic_light_near"⟩ ⟨"traffic_light", "cam_traffic_light_near"⟩ 2 :=
+  family_cell_eq rfl rfl (by intro l hl t ht; cases hl; simp at ht; rw [ht])
+
+end family
+
+/-! ## "the caller's lists are left untouched"  (audit C01 finding 1)
+
+`MatchHeap.getObjectResultsH` is `get_object_results` with its list handling: the caller's two `list` objects are two
+addresses `rE`, `rG` of a store of lists, `estimated_objects.copy()` / `ground_truth_objects.copy()` allocate two new
+lists, and the loops `pop` from those at the position of the optimum in the remaining table.  A function that popped
+from the caller's lists IS expressible in this model (`getObjectResultsH_noCopy`, below), so the statements say something.
+The corresponding observation on the real code is `untouched` (and `frame_gt_untouched` through the manager) in
+`harness/props/c01.py`: the (identity, label, frame, geometry, uuid) snapshot of both lists before and after the call. -/
+section heap
+open PEval.MatchHeap
+
+theorem runH_of_ests_nil {copy : Bool} {c : Cfg} {w : World} {h : Heap} {rE rG : LRef} (he : h.read rE = []) :
+    runH copy c w h rE rG = (.ok [], h) := by
+  simp [runH, he]
+
+theorem runH_heap_of_gts_nil {copy : Bool} {c : Cfg} {w : World} {h : Heap} {rE rG : LRef} (hg : h.read rG = []) :
+    (runH copy c w h rE rG).2 = h := by
+  unfold runH
+  by_cases he : h.read rE = [] <;> simp [hg, he]
+
+/-- The call changes NO list that existed before it (every address of the heap reads the same afterwards); what it
+writes are the two lists it created itself. -/
+theorem existing_lists_untouched (c : Cfg) (w : World) (h : Heap) (rE rG : LRef) :
+    ∀ r : Nat, r < h.cells.length → (getObjectResultsH c w h rE rG).2.read r = h.read r :=
+  runH_frame c w h rE rG
+
+/-- **The caller's lists are left untouched**, for every configuration, every store, any two list references (also one
+list handed in as both arguments), in both tasks, whether the call returns or raises. -/
+theorem caller_lists_untouched (c : Cfg) (w : World) (h : Heap) (rE rG : LRef) :
+    (getObjectResultsH c w h rE rG).2.read rE = h.read rE ∧ (getObjectResultsH c w h rE rG).2.read rG = h.read rG := by
+  constructor
+  · by_cases hr : rE < h.cells.length
+    · exact runH_frame c w h rE rG rE hr
+    · have : h.read rE = [] := read_of_ge (Nat.le_of_not_lt hr)
+      unfold getObjectResultsH
+      rw [runH_of_ests_nil this]
+  · by_cases hr : rG < h.cells.length
+    · exact runH_frame c w h rE rG rG hr
+    · have : h.read rG = [] := read_of_ge (Nat.le_of_not_lt hr)
+      unfold getObjectResultsH
+      rw [runH_heap_of_gts_nil this]
+
+/-- **Refinement**: the results (or the exception) of the heap-level call are those of the index-level model
+`getObjectResults` on the scene read from the two lists, every index standing for the object at that position of the
+caller's list.  All theorems of this file therefore transfer to the objects. -/
+theorem heap_results_are_input_objects (c : Cfg) (w : World) (h : Heap) (rE rG : LRef) :
+    (getObjectResultsH c w h rE rG).1 =
+      (getObjectResults c (sceneOf w (h.read rE) (h.read rG))).map
+        (fun rs => rs.map (deref (h.read rE) (h.read rG))) :=
+  runH_refines c w h rE rG
+
+theorem heap_ok_inv {c : Cfg} {w : World} {h : Heap} {rE rG : LRef} {rsH : List RRes}
+    (hr : (getObjectResultsH c w h rE rG).1 = .ok rsH) :
+    ∃ rs, getObjectResults c (sceneOf w (h.read rE) (h.read rG)) = .ok rs ∧
+      rsH = rs.map (deref (h.read rE) (h.read rG)) := by
+  rw [heap_results_are_input_objects] at hr
+  cases hg : getObjectResults c (sceneOf w (h.read rE) (h.read rG)) with
+  | error e => simp [hg, Except.map] at hr
+  | ok rs =>
+    simp only [hg, Except.map, Except.ok.injEq] at hr
+    exact ⟨rs, rfl, hr.symm⟩
+
+theorem getD_mem_of_lt {l : List ORef} {i : Nat} (hi : i < l.length) : l.getD i 0 ∈ l := by
+  rw [List.getD_eq_getElem?_getD, List.getElem?_eq_getElem hi]
+  exact List.getElem_mem hi
+
+/-- transfer, 1: every object of a result is an object of the caller's lists (nothing foreign, by identity) -/
+theorem heap_result_objects_in_lists {c : Cfg} {w : World} {h : Heap} {rE rG : LRef} {rsH : List RRes}
+    (hr : (getObjectResultsH c w h rE rG).1 = .ok rsH) :
+    ∀ r ∈ rsH, r.1 ∈ h.read rE ∧ ∀ go, r.2 = some go → go ∈ h.read rG := by
+  obtain ⟨rs, hok, rfl⟩ := heap_ok_inv hr
+  intro r hr'
+  obtain ⟨x, hx, rfl⟩ := List.mem_map.1 hr'
+  have h1 := (results_est_nodup hok).2 x hx
+  rw [sceneOf_ests_length] at h1
+  refine ⟨getD_mem_of_lt h1, ?_⟩
+  intro go hgo
+  obtain ⟨i, oj⟩ := x
+  cases oj with
+  | none => simp [deref] at hgo
+  | some j =>
+    simp only [deref, Option.map_some, Option.some.injEq] at hgo
+    subst hgo
+    have : j ∈ usedGts rs := by
+      unfold usedGts; rw [List.mem_filterMap]; exact ⟨(i, some j), hx, rfl⟩
+    have h2 := (results_gt_nodup hok).2 j this
+    rw [sceneOf_gts_length] at h2
+    exact getD_mem_of_lt h2
+
+/-- transfer, 2: outside FP validation the estimate objects of the results are a rearrangement of the caller's estimate
+list: every input estimate OBJECT in exactly one result -/
+theorem heap_results_est_perm {c : Cfg} {w : World} {h : Heap} {rE rG : LRef} {rsH : List RRes}
+    (hr : (getObjectResultsH c w h rE rG).1 = .ok rsH) (hfp : c.fpValidation = false) :
+    (rsH.map (·.1)).Perm (h.read rE) := by
+  obtain ⟨rs, hok, rfl⟩ := heap_ok_inv hr
+  have hp := results_est_perm hok hfp
+  rw [sceneOf_ests_length] at hp
+  have := hp.map (fun i => (h.read rE).getD i 0)
+  rw [map_getD_range] at this
+  simpa [deref, Function.comp_def] using this
+
+/-! the model run on a concrete store: list 0 = the caller's estimates (objects 10, 11, 12), list 1 = the caller's ground
+truths (objects 20, 21); the scene is `exScene` above -/
+
+def exWorld : World :=
+  { obj := fun o => if o < 20 then exScene.ests.getD (o - 10) ⟨"", ""⟩ else exScene.gts.getD (o - 20) ⟨"", ""⟩,
+    val := fun a b => exScene.val (a - 10) (b - 20) }
+
+def exHeap : Heap := ⟨[[10, 11, 12], [20, 21]]⟩
+
+/-- the code: results refer to the caller's objects, the two working lists are new cells 2 and 3, cells 0 and 1 are
+as before -/
+example : getObjectResultsH exCfg exWorld exHeap 0 1 =
+    (.ok [(10, some 20), (11, some 21), (12, none)], ⟨[[10, 11, 12], [20, 21], [12], []]⟩) := by decide +kernel
+
+/-- the DEFECTIVE variant without `.copy()` returns the same results but has emptied the caller's lists … -/
+example : getObjectResultsH_noCopy exCfg exWorld exHeap 0 1 =
+    (.ok [(10, some 20), (11, some 21), (12, none)], ⟨[[12], []]⟩) := by decide +kernel
+
+/-- … so `caller_lists_untouched` FAILS for it: the theorem separates the code from the defect. -/
+example : ¬ ((getObjectResultsH_noCopy exCfg exWorld exHeap 0 1).2.read 0 = exHeap.read 0 ∧
+    (getObjectResultsH_noCopy exCfg exWorld exHeap 0 1).2.read 1 = exHeap.read 1) := by decide +kernel
+
+end heap
 
 end PEval.C01
